@@ -9,11 +9,11 @@ from vlib import env
 
 EQCASE = os.path.join(env.VERIF, 'vlib', 'eqcase.py')
 
-NONFATAL = ['equal', 'different', 'player_raises', 'extractor_raises', 'comparator_raises', 'bare_status']
+NONFATAL = ['equal', 'different', 'player_raises', 'extractor_raises', 'comparator_raises', 'bare_status', 'spawn_child']
 FATAL = ['exit', 'hang', 'late', 'hang_sigterm_ignored']
 IDLE_DEATH = 'die_idle'     # answers normally, then the idle worker is killed; the verdict of the NEXT recording is unspecified
 EXPECTED = {'equal': 'Equal', 'different': 'Different', 'player_raises': 'EqualizerFailure', 'extractor_raises': 'EqualizerFailure',
-            'comparator_raises': 'EqualizerFailure', 'bare_status': 'Equal', 'exit': 'EqualizerFailure', 'hang': 'EqualizerFailure',
+            'comparator_raises': 'EqualizerFailure', 'bare_status': 'Equal', 'spawn_child': 'Equal', 'exit': 'EqualizerFailure', 'hang': 'EqualizerFailure',
             'late': 'EqualizerFailure', 'hang_sigterm_ignored': 'EqualizerFailure', 'die_idle': 'Equal'}
 
 
@@ -26,7 +26,7 @@ def expected_duration(case):
 
 def run_one(case):
     """-> (result dict | None, status) status in ok | watchdog | crashed"""
-    budget = expected_duration(case) * 10 + 60
+    budget = expected_duration(case) * 6 + 40
     try:
         p = subprocess.run([sys.executable, EQCASE, json.dumps(case)], capture_output=True, text=True, timeout=budget,
                            env=dict(os.environ, VERIF_REPO=env.REPO))
